@@ -179,20 +179,70 @@ def classify_reason(err: dict, rendered: str | None) -> str:
     return "shape"
 
 
+def body_lines(case: dict) -> int:
+    """line (1-based, within render(case)) of statement 1 of the body"""
+    return 3 + (1 if case["origin"] == "local" else 0)
+
+
+_PRELUDE = None
+
+
 def run_case(case: dict) -> dict:
-    """Pool worker: compile + validate one rendered body with /repo. Total."""
+    """Pool worker: compile + validate one rendered body with /repo. Total.
+    -> status ok | rejected (a Guppy error) | crash (any other exception) | invalid (HUGR validation failed)
+       impl_at: for rejected/crash: k >= 1 if the exception was raised while statement k of the body was executing
+       (a frame of the rendered function is on the traceback), 0 if it was raised after the body had returned"""
+    import traceback
+
     import gp
     import runner
+    from guppylang_internals.error import GuppyError
 
+    global _PRELUDE
+    if _PRELUDE is None:
+        _PRELUDE = gp.PRELUDE + PRELUDE_EXTRA
     src = render(case)
-    r = runner.run_job({"src": src, "entry": "main", "prelude": gp.PRELUDE + PRELUDE_EXTRA, "args": [], "validate": True})
-    out = {"status": r["status"], "src": src}
-    if "error" in r:
-        out["error"] = {k: v for k, v in r["error"].items() if k != "tb"}
-        out["tb"] = r["error"].get("tb")
-        if r["status"] == "rejected":
-            out["impl_reason"] = classify_reason(r["error"], r.get("rendered"))
-    return out
+    out = {"src": src}
+    mod = None
+    try:
+        try:
+            mod = gp.load(src, prelude=_PRELUDE)
+            pkg = mod.main.compile_function()
+        except BaseException as e:  # noqa: BLE001
+            if isinstance(e, (KeyboardInterrupt, SystemExit)):
+                raise
+            info = runner.classify_exception(e)
+            guppy = isinstance(e, GuppyError) or info["class"] in ("GuppyComptimeError", "GuppyTypeError")
+            out["status"] = "rejected" if guppy else "crash"
+            out["error"] = {k: v for k, v in info.items() if k != "tb"}
+            fname = getattr(mod, "__file__", None)
+            at = 0
+            for fr in traceback.extract_tb(e.__traceback__):
+                if fname is not None and fr.filename == fname and fr.name == "main":
+                    at = fr.lineno - _PRELUDE.count("\n") - body_lines(case) + 1
+            out["impl_at"] = at
+            rendered = None
+            if isinstance(e, GuppyError):
+                try:
+                    rendered = runner.render_error(e)
+                except Exception:  # noqa: BLE001
+                    rendered = None
+            if guppy:
+                out["impl_reason"] = classify_reason(info, rendered)
+            else:
+                out["tb"] = "".join(traceback.format_exception(e))[-1500:]
+            return out
+        try:
+            gp.validate(pkg)
+        except Exception as e:  # noqa: BLE001
+            out["status"] = "invalid"
+            out["error"] = {"class": type(e).__name__, "msg": runner.validation_msg(e)}
+            return out
+        out["status"] = "ok"
+        return out
+    finally:
+        if mod is not None:
+            gp.unload(mod)
 
 
 def run_chunk(cases: list) -> list:
